@@ -20,7 +20,7 @@ RULE = ("every aggregate of C03/C18 on both cube types x every argument form (Na
         "construction + calculate, results checked not to share memory with arguments; calculate(list)[i] == "
         "calculate([list[i]])[0] for all permutations of <=3 aggregates and for lists naming one function object twice, a repeated calculate with the same objects, the "
         "same aggregate-function object re-used on another cube; non-mutating index methods leave receiver and arguments "
-        "byte-identical. Non-trivial = an argument with missing positions; distinct by (case, aggregate, form)")
+        "byte-identical; a cube evaluated before one of its dimensions is updated in place agrees afterwards with a never-evaluated and a new cube over the same objects. Non-trivial = an argument with missing positions; distinct by (case, aggregate, form)")
 ASSUMPTIONS = ["global interpreter state (warnings filters, tracing dictionaries) is observed only through results"]
 
 
@@ -285,8 +285,58 @@ def construction(ctx):
                          "common": common}, cls="C17-input-mutated")
 
 
+def cube_history(ctx):
+    """results depend only on the arguments: a cube object that has already been evaluated gives, after one of its
+    (multi-axis) dimensions was changed in place, what a cube built now from the same objects gives"""
+    from catii import ccube
+    for _try in range(50):
+        case = c13.gen_multi(ctx.rng)
+        if case["N"] > 0:
+            break
+    dense, commons, N = case["dense"], case["commons"], case["N"]
+    idxs = [G.make_index(d, c) for d, c in zip(dense, commons)]
+    ishape = tuple(int(max([int(v) for v in np.unique(d).tolist()] + [c])) + 1 for d, c in zip(dense, commons))
+    used = ccube(idxs, interacting_shape=ishape)
+    idle = ccube(idxs, interacting_shape=ishape)
+    desc = A.small_desc(case, {"history": "evaluate, update a dimension in place, evaluate again"})
+    ctx.case(desc, nontrivial=True)
+    ctx.hit("cube_history")
+    try:
+        A.call(used, "count", case, ("pair", 0))
+        a = ctx.rng.choice([j for j, d in enumerate(dense) if d.ndim > 1] or [0])
+        d2 = dense[a]
+        present = sorted(set(int(v) for v in d2.reshape(-1).tolist()) | {int(commons[a])})
+        ent = {}
+        for _k in range(ctx.rng.randrange(1, 4)):
+            pos = tuple(ctx.rng.randrange(s_) for s_ in d2.shape)
+            v = ctx.rng.choice(present)
+            ent.setdefault((int(v),) + tuple(int(x) for x in pos[1:]), set()).add(int(pos[0]))
+        seen = set()
+        clean = {}
+        for k, rows in ent.items():             # one value per cell
+            rows = {r for r in rows if (r,) + k[1:] not in seen}
+            seen |= {(r,) + k[1:] for r in rows}
+            if rows:
+                clean[k] = np.array(sorted(rows), dtype=np.uint32)
+        idxs[a].update(clean)
+        for func in ("count", "sum"):
+            ctx.evaluations += 1
+            r_used = c16.flat_bytes([A.call(used, func, case, ("pair", 0))])
+            r_idle = c16.flat_bytes([A.call(idle, func, case, ("pair", 0))])
+            r_new = c16.flat_bytes([A.call(ccube(idxs, interacting_shape=ishape), func, case, ("pair", 0))])
+            if not (r_used == r_idle == r_new):
+                ctx.oracle_fail("ccube.%s: after dimension %d was updated in place, a cube evaluated before the update, a cube "
+                                "built before it but never evaluated, and a cube built now give different results (%s)" % (
+                                    func, a, "used != new" if r_used != r_new else "idle != new"), desc, cls="C17-hidden-state")
+                return
+    except Exception as e:
+        ctx.oracle_fail("cube history raised %s: %s" % (type(e).__name__, str(e)[:80]), desc, cls="C17-hidden-state")
+
+
 def run(ctx):
     core.load_catii()
+    for _ in range(ctx.n(12, 300)):
+        cube_history(ctx)
     for _ in range(ctx.n(60, 2000)):
         construction(ctx)
     for _ in range(ctx.n(30, 600)):
